@@ -3,10 +3,15 @@ implementation, compare with the model (correspondence) and with Sem.v (specific
 import vlib, runcorr, genwf, nlast
 
 
-def gen_sources(ctx, n, **kw):
+def gen_sources(ctx, n, with_value_out=None, **kw):
+    """with_value_out: a list that receives, per program, whether its last statement is an expression statement
+    (only then is the program's VALUE specified, DESIGN.md 4.3 item 1)"""
     out, asts = [], []
     for _ in range(n):
         p, st = genwf.gen_program(ctx.rng, **kw)
+        wv = bool(st.pop("__ends_with_value", 1))
+        if with_value_out is not None:
+            with_value_out.append(wv)
         for k, v in st.items():
             ctx.count("gen:" + k, v)
         asts.append(p)
@@ -47,3 +52,26 @@ def replay_source(ctx, data, log, budget=20000):
     exp = data.get("expected")
     if exp is not None and visible(o) != exp:
         ctx.violate("replayed: still differs from the expected observation", source=src, observed=visible(o), expected=exp)
+
+
+def deep_recursion_family():
+    """Recursions that drive the operand stack across its 16-bit limit at every alignment: p parameters, l own
+    locals, m pending operands per level.  Each returns (source, value it has if it is allowed to finish).
+    The machine may answer with the recursion-limit error instead - never with another value."""
+    out = []
+    for p in (1, 2, 3):
+        for l in (0, 1, 2):
+            for m in (0, 1, 2):
+                per = p + l + m + 1
+                for depth in (300, 66000 // per + 40, 66000 // max(1, per - 1) + 40, 33000, 70000):
+                    params = ", ".join(["n"] + ["q%d" % i for i in range(1, p)])
+                    args = ", ".join(["n - 1"] + ["q%d" % i for i in range(1, p)])
+                    locs = "".join("stel w%d = n; " % i for i in range(l))
+                    call = "f(%s)" % args
+                    expr = call
+                    for _ in range(m):
+                        expr = "1 + (%s)" % expr
+                    first = ", ".join([str(depth)] + [str(i) for i in range(1, p)])
+                    src = "functie f(%s) { %sals n == 0 { antwoord 0 } %s } f(%s)" % (params, locs, expr, first)
+                    out.append((src, m * depth))
+    return out
